@@ -172,6 +172,121 @@ impl Family for WideLongData {
     }
 }
 
+/// Long data for a parameter whose NULL bit the client sets as well - contradictory, so for that
+/// parameter either reading is accepted (NULL, or the data) - next to other parameters that are
+/// supplied by long data or inline: those must arrive exactly, the next execution must see none of
+/// it. Every statement of 2-4 parameters, every non-empty set of long-data parameters, every
+/// non-empty subset of it marked NULL, chunks sent parameter by parameter or interleaved.
+struct NullMarkedLongData {
+    cases: Vec<(usize, u32, u32, bool)>,
+}
+impl NullMarkedLongData {
+    fn new() -> Self {
+        let mut cases = Vec::new();
+        for n in 2..=4usize {
+            for l in 1u32..(1 << n) {
+                let mut z = l;
+                while z > 0 {
+                    cases.push((n, l, z, false));
+                    cases.push((n, l, z, true));
+                    z = (z - 1) & l;
+                }
+            }
+        }
+        NullMarkedLongData { cases }
+    }
+}
+impl Family for NullMarkedLongData {
+    fn name(&self) -> String {
+        "long-data-for-parameters-also-marked-null".into()
+    }
+    fn len(&self) -> u64 {
+        self.cases.len() as u64
+    }
+    fn run(&self, idx: u64, st: &mut Stats) -> Result<(), Violation> {
+        use super::common::*;
+        use crate::conv::*;
+        use crate::shim::*;
+        use std::sync::Arc;
+        let (n, l, z, interleaved) = self.cases[idx as usize];
+        st.nontrivial += 1;
+        st.bump("null_marked_long_data");
+        let data = |p: usize, part: usize| -> Vec<u8> { format!("<{}:{}>", p, part).into_bytes() };
+        let inline = |p: usize, round: u8| -> Vec<u8> { vec![p as u8 + 1, round, 0, 0] };
+        let mut cmds = vec![ClientCmd::new(with_byte(COM_STMT_PREPARE, format!("id=1 p={}", n).as_bytes()))];
+        let longs: Vec<usize> = (0..n).filter(|p| l >> p & 1 == 1).collect();
+        if interleaved {
+            for part in 0..2 {
+                for p in &longs {
+                    cmds.push(ClientCmd::new(cmd_long(1, *p as u16, &data(*p, part))));
+                }
+            }
+        } else {
+            for p in &longs {
+                for part in 0..2 {
+                    cmds.push(ClientCmd::new(cmd_long(1, *p as u16, &data(*p, part))));
+                }
+            }
+        }
+        let ps: Vec<ExecParam> = (0..n).map(|p| if l >> p & 1 == 1 { ExecParam { ty: 0xfc, unsigned: false, wire: None, long: true } } else { ExecParam { ty: 0x03, unsigned: false, wire: Some(inline(p, 1)), long: false } }).collect();
+        let mut blk = exec_block(&ps, true);
+        for p in 0..n {
+            if z >> p & 1 == 1 {
+                blk[p / 8] |= 1 << (p % 8);
+            }
+        }
+        cmds.push(ClientCmd::new(cmd_execute(1, 0, 1, &blk)));
+        let ps2: Vec<ExecParam> = (0..n).map(|p| ExecParam { ty: 0x03, unsigned: false, wire: Some(inline(p, 2)), long: false }).collect();
+        cmds.push(ClientCmd::new(cmd_execute(1, 0, 1, &exec_block(&ps2, true))));
+        cmds.push(ping());
+        let conv = Conv::new(cmds);
+        let s = conv.stream();
+        let stream = Arc::new(s.bytes);
+        let mut sim = sim_for(&stream, vec![]);
+        sim.log_ops = false;
+        let o = run_conn(sim, ConnCfg::new(std_behave()));
+        st.transitions += conv.cmds.len() as u64;
+        let what = format!("{} parameters, long data for {:?}, of which the NULL bit is also set for {:?}, chunks {}", n, longs, (0..n).filter(|p| z >> p & 1 == 1).collect::<Vec<_>>(), if interleaved { "interleaved" } else { "parameter by parameter" });
+        if let ConnResult::Panic(l, m) = &o.res {
+            return Err(Violation::new(panic_key(l, m), format!("{}: run_on panicked at {}: {}", what, l, m)));
+        }
+        if !o.res.is_ok() {
+            return Err(Violation::new("result-not-ok", format!("{}: run_on returned {}", what, o.res.short())));
+        }
+        let execs: Vec<&Vec<(u8, PVal)>> = o.log.iter().filter_map(|(_, c)| if let Cb::Execute { params, .. } = c { Some(params) } else { None }).collect();
+        if execs.len() != 2 {
+            return Err(Violation::new("executions-missing", format!("{}: {} of 2 executions reached the shim", what, execs.len())));
+        }
+        for p in 0..n {
+            let got = execs[0].get(p).map(|x| &x.1);
+            let full = PVal::Bytes([data(p, 0), data(p, 1)].concat());
+            let ok = if z >> p & 1 == 1 {
+                got == Some(&PVal::Null) || got == Some(&full)
+            } else if l >> p & 1 == 1 {
+                got == Some(&full)
+            } else {
+                got == Some(&PVal::Int(i32::from_le_bytes([p as u8 + 1, 1, 0, 0]) as i64))
+            };
+            if !ok {
+                return Err(Violation::new("parameter-differs", format!("{}: the first execution saw parameter {} as {:?}", what, p, got)));
+            }
+            let got2 = execs[1].get(p).map(|x| &x.1);
+            if got2 != Some(&PVal::Int(i32::from_le_bytes([p as u8 + 1, 2, 0, 0]) as i64)) {
+                return Err(Violation::new("long-data-delivered-again", format!("{}: the second execution (all values inline) saw parameter {} as {:?}", what, p, got2)));
+            }
+        }
+        if execs[0].len() != n || execs[1].len() != n {
+            return Err(Violation::new("parameter-count", format!("{}: executions saw {} and {} parameters", what, execs[0].len(), execs[1].len())));
+        }
+        decode_all(delivered(&o), &conv, &s.last_seq, conv.cmds.len(), false).map_err(|e| Violation::new("reply-decode", format!("{}: {}", what, e)))?;
+        Ok(())
+    }
+    fn describe(&self, idx: u64) -> J {
+        let (n, l, z, i) = self.cases[idx as usize];
+        json!({"parameters": n, "long_data_mask": l, "null_bit_mask": z, "interleaved": i})
+    }
+}
+
 pub fn build(quick: bool) -> Check {
     let alpha = alphabet();
     let prefix = vec![Action::Prepare { id: 1, n: 2, ok: true }, Action::Prepare { id: 2, n: 2, ok: true }];
@@ -210,6 +325,7 @@ pub fn build(quick: bool) -> Check {
         max_long: 4,
         max_states: if quick { 3000 } else { 300_000 },
     }));
+    families.push(Box::new(NullMarkedLongData::new()));
     families.push(Box::new(BigChunk));
     families.push(Box::new(ManyLargeChunks));
     families.push(Box::new(WideLongData));
@@ -219,12 +335,12 @@ pub fn build(quick: bool) -> Check {
     Check {
         id: "C17",
         level: "model_checking",
-        rule: format!("two prepared statements of 2 parameters; histories over {} actions: LONG_DATA(id 1|2, parameter 0|1|out of range, chunk \"\"|\"xy\"|\"z\"; 2000- and 12000-byte chunks), EXECUTE(bind LONG | VAR_STRING | MYSQL_TYPE_NULL | reuse; first parameter NULL), CLOSE, re-PREPARE; the client omits inline bytes for parameters with pending long data. Full tree to depth {} (thorough: depth 6 over the alphabet without the large chunks) plus BFS over model states (pending data capped at 4 bytes per parameter) with two witnesses; every interleaving of <= 7 (thorough: 9) actions over (chunk for parameter 0|1 of statement 1|2, EXECUTE 1|2) and of <= 6 (7) with CLOSE 1 / PREPARE 1 added; plus a chunk of 2*(2^24-1)+5 bytes; five chunks of 14 MiB for one parameter (70 MiB delivered); long data for parameters 15..17, 255..257, 511, 512, 999 of statements of 18..1000 parameters; plus long data followed by 8..600 inline executions of the same statement; 2..1000 chunks streamed round-robin to 2-3 parameters; 2000/12000/70000-byte buffers abandoned by CLOSE or emptied by EXECUTE followed by small long data; pairs of statement ids that agree in their low 8/16/24 bits or differ only in the top bit. Long scripted sessions: 130..4099 (thorough: up to 131101) ordinary commands of every kind on one connection in up to six mixes (even, prepare/close churn with growing ids, executions, long-data chunks, unanswered commands, text and library-answered commands) under several client/transport behaviours (pipelined, request ids advancing by 7, lock-step, 1..4093-byte reads, 7/11-byte writes), generated by a fixed rule, kept valid with the registry model and judged on the complete trace (callbacks with arguments, result, strict decode of every reply with its sequence ids). Oracle: the parameter is the in-order concatenation for that statement and parameter, the other parameters keep their inline values, delivery happens to exactly one execution and never to another statement.", alpha.len(), if quick {4} else {5}),
+        rule: format!("statements of 2-4 parameters with long data for every non-empty set of parameters of which every non-empty subset is also marked NULL by the client (for those either reading is accepted; every other parameter must arrive exactly and nothing may reach the next execution); two prepared statements of 2 parameters; histories over {} actions: LONG_DATA(id 1|2, parameter 0|1|out of range, chunk \"\"|\"xy\"|\"z\"; 2000- and 12000-byte chunks), EXECUTE(bind LONG | VAR_STRING | MYSQL_TYPE_NULL | reuse; first parameter NULL), CLOSE, re-PREPARE; the client omits inline bytes for parameters with pending long data. Full tree to depth {} (thorough: depth 6 over the alphabet without the large chunks) plus BFS over model states (pending data capped at 4 bytes per parameter) with two witnesses; every interleaving of <= 7 (thorough: 9) actions over (chunk for parameter 0|1 of statement 1|2, EXECUTE 1|2) and of <= 6 (7) with CLOSE 1 / PREPARE 1 added; plus a chunk of 2*(2^24-1)+5 bytes; five chunks of 14 MiB for one parameter (70 MiB delivered); long data for parameters 15..17, 255..257, 511, 512, 999 of statements of 18..1000 parameters; plus long data followed by 8..600 inline executions of the same statement; 2..1000 chunks streamed round-robin to 2-3 parameters; 2000/12000/70000-byte buffers abandoned by CLOSE or emptied by EXECUTE followed by small long data; pairs of statement ids that agree in their low 8/16/24 bits or differ only in the top bit. Long scripted sessions: 130..4099 (thorough: up to 131101) ordinary commands of every kind on one connection in up to six mixes (even, prepare/close churn with growing ids, executions, long-data chunks, unanswered commands, text and library-answered commands) under several client/transport behaviours (pipelined, request ids advancing by 7, lock-step, 1..4093-byte reads, 7/11-byte writes), generated by a fixed rule, kept valid with the registry model and judged on the complete trace (callbacks with arguments, result, strict decode of every reply with its sequence ids). Oracle: the parameter is the in-order concatenation for that statement and parameter, the other parameters keep their inline values, delivery happens to exactly one execution and never to another statement.", alpha.len(), if quick {4} else {5}),
         assumptions: vec!["an empty chunk still marks the parameter as supplied by long data (MySQL semantics: the value is the empty string)".into()],
         bounds: json!({"tree_depth": if quick {4} else {5}, "core_tree_depth": if quick {0} else {6}, "alphabet": alpha.len()}),
         exhaustive: true,
         caps_hit: vec![],
         families,
-        required: vec!["soak_sessions", "execute_with_pending_long_data", "multi_packet_chunks", "many_large_chunks", "wide_long_data", "bfs_states", "long_histories"],
+        required: vec!["null_marked_long_data", "soak_sessions", "execute_with_pending_long_data", "multi_packet_chunks", "many_large_chunks", "wide_long_data", "bfs_states", "long_histories"],
     }
 }
